@@ -28,7 +28,7 @@ func init() {
 		}}},
 		Run: run,
 		Floors: func(t string) map[string]int64 {
-			return map[string]int64{"query.connected": 5000, "query.disconnected": 200, "query.same_node": 100, "query.optimal_differs_from_fewest_links": 200, "minimise.Distance": 300, "minimise.Time": 300, "topology.detour": 100, "topology.two_components": 100, "topology.grid": 100, "topology.tree": 100, "query.on_node": 1000}
+			return map[string]int64{"query.connected": 5000, "query.disconnected": 200, "query.same_node": 100, "query.optimal_differs_from_fewest_links": 200, "minimise.Distance": 300, "minimise.Time": 300, "topology.detour": 100, "topology.two_components": 100, "topology.grid": 100, "topology.tree": 100, "query.on_node": 1000, "order.fastest_first": 100}
 		},
 	})
 }
@@ -267,6 +267,16 @@ func run(c *core.Ctx, idx int) {
 		}
 		return map[string]interface{}{"minimise": optName, "topology": topo, "links_in_insertion_order": ls}
 	}
+	// insertion order: as generated (random), or sorted by speed (the fastest / slowest link
+	// first matters for anything the network accumulates while links are added)
+	switch r.Intn(5) {
+	case 0:
+		sortLinks(nw, func(a, b *link) bool { return a.speed > b.speed })
+		c.Count("order.fastest_first")
+	case 1:
+		sortLinks(nw, func(a, b *link) bool { return a.speed < b.speed })
+		c.Count("order.slowest_first")
+	}
 	var net *route.Network
 	if c.Guard("AddLink", netDesc(), func() {
 		net = route.NewNetwork(opt)
@@ -412,5 +422,20 @@ func run(c *core.Ctx, idx int) {
 			c.Count("query.optimal_differs_from_fewest_links")
 			c.Nontrivial(core.NewHasher().U64(h.Sum()).Int(s).Int(t).Sum())
 		}
+	}
+}
+
+// sortLinks reorders the links (and rebuilds the adjacency index).
+func sortLinks(n *netw, less func(a, b *link) bool) {
+	ls := n.links
+	for i := 1; i < len(ls); i++ {
+		for j := i; j > 0 && less(&ls[j], &ls[j-1]); j-- {
+			ls[j], ls[j-1] = ls[j-1], ls[j]
+		}
+	}
+	n.adj = map[int][]int{}
+	for i, l := range ls {
+		n.adj[l.a] = append(n.adj[l.a], i)
+		n.adj[l.b] = append(n.adj[l.b], i)
 	}
 }
